@@ -120,6 +120,9 @@ func RunSerialOpt(rng *rand.Rand, nSteps int, obs Observer, opt SerialOpt) (Seri
 				st.Alive = true
 			case k < 88:
 				st.Alive = false
+			case k >= 97 && !opt.LongLived: // alive, announces a newer sequence number, but the record request then fails
+				st.Alive = true
+				st.SeqAheadNoRecord = true
 			default: // alive and announcing a newer record
 				st.Alive = true
 				cur := ev.node
@@ -140,7 +143,10 @@ func RunSerialOpt(rng *rand.Rand, nSteps int, obs Observer, opt SerialOpt) (Seri
 			if st.NewRec != nil {
 				newNode = st.NewRec.Node
 			}
-			if !d.AnswerPing(ev, st.Alive, newNode) {
+			if st.SeqAheadNoRecord {
+				d.ForgetENR(ev.node.ID())
+			}
+			if !d.AnswerPingSeq(ev, st.Alive, newNode, st.SeqAheadNoRecord) {
 				stats.PingsUnacked++
 			}
 			afterAdvance = true // several pings may be pending
